@@ -506,7 +506,12 @@ func vh_C36_subexpire_flow() {
 		cb(SubscribeReply{ClientSideRefresh: true, Options: SubscribeOptions{ExpireAt: start + ttl}}, nil)
 	})
 	newTTL := int64(0)
+	noExpiry := false // the refresh reply removes the expiration (ExpireAt 0)
 	c.OnSubRefresh(func(e SubRefreshEvent, cb SubRefreshCallback) {
+		if noExpiry {
+			cb(SubRefreshReply{ExpireAt: 0}, nil)
+			return
+		}
 		cb(SubRefreshReply{ExpireAt: c36nowUnix() + newTTL}, nil)
 	})
 	unsubs := 0
@@ -521,11 +526,13 @@ func vh_C36_subexpire_flow() {
 	vAssert(c.IsSubscribed("ch") && !tr.closed, "subscribed")
 	expireAt := start + ttl
 	refreshAt := int64(-1)
-	switch vChoice("refresh", 3) {
+	switch vChoice("refresh", 4) {
 	case 1:
 		refreshAt, newTTL = 20, 1000 // long before it matters
 	case 2:
 		refreshAt, newTTL = 40, 10 // after expiry, within grace for ttl=30 / too late for ttl=5 (tick at 37.5)
+	case 3:
+		refreshAt, noExpiry = 20, true // refreshed to "no expiration"
 	}
 	// ticks happen at 12.5s, 37.5s, 62.5s, ... after connect
 	tick := int64(time.Second) * 25 / 2
@@ -541,8 +548,14 @@ func vh_C36_subexpire_flow() {
 			ok := c.HandleCommand(&protocol.Command{Id: 30, SubRefresh: &protocol.SubRefreshRequest{Channel: "ch", Token: "t"}}, 0)
 			vSettle()
 			same, _, r := vccCountReplies(tr, base, 30)
-			vAssert(ok && same == 1 && r.Error == nil && r.SubRefresh != nil && r.SubRefresh.Expires && r.SubRefresh.Ttl == uint32(newTTL), "sub refresh reply")
-			expireAt = start + refreshAt + newTTL
+			if noExpiry {
+				vAssert(ok && same == 1 && r.Error == nil && r.SubRefresh != nil && !r.SubRefresh.Expires, "sub refresh reply: no expiration")
+				expireAt = start + 1_000_000 // never, as far as this harness goes
+				vCover(true, "sub-refreshed-to-no-expiration")
+			} else {
+				vAssert(ok && same == 1 && r.Error == nil && r.SubRefresh != nil && r.SubRefresh.Expires && r.SubRefresh.Ttl == uint32(newTTL), "sub refresh reply")
+				expireAt = start + refreshAt + newTTL
+			}
 			vCover(true, "sub-refreshed")
 		}
 		vAdvance(next - elapsed - 1)
